@@ -495,6 +495,10 @@ func writerScenario(s *Sim, params map[string]string) {
 
 	st := &writerState{s: s, cl: cl, byID: map[string]*wmsg{}}
 	st.raceClose = params["close"] == "race"
+	if st.raceClose && t.Intn("cfg", 2) == 0 {
+		// goroutines may lose the CPU for a moment between any two steps
+		s.EnableStalls(Pick(t, "cfg", 30, 150), 2*time.Millisecond)
+	}
 	// faults
 	fmode := t.Intn("cfg", 6)
 	if v, ok := params["faults"]; ok {
@@ -767,6 +771,11 @@ func writerScenario(s *Sim, params map[string]string) {
 	if st.raceClose {
 		closing = true
 		at := time.Duration(t.Range("work", 0, 3000)) * time.Millisecond
+		if t.Intn("work", 2) == 0 {
+			// ... or right when a batch timer is due: batches opened by the
+			// first writes expire a whole number of BatchTimeouts after the start
+			at = time.Duration(t.Range("work", 1, 3))*w.BatchTimeout + time.Duration(t.Intn("work", 3000))*time.Microsecond
+		}
 		s.After(at, "close-writer", func() { s.Go("closer", doClose) })
 	}
 	s.DoneWhen(func() bool {
